@@ -646,3 +646,48 @@ def execute(run, run_corr, sh, BUILD, REPO):
                                 "detail": m, "rerun": {"mode": run["mode"], "seed": run["seed"], "budget": run["n"], "index": m["index"]}})
     res["wall_s"] = round(time.time() - t0, 2)
     return res
+
+
+# ---- texts brought up to date with what was built after the first wiring (appended, not edited in place) ----
+PROPS["C04"]["level_text"] += (" Bind only on success (Session/BindOnSuccess.lean): Twalk/Twalkgetattr, Tattach, Txattrwalk and Tlcreate leave the "
+    "whole fid table exactly as it was whenever they answer Rlerror or end in a panic - for every oracle tape.")
+PROPS["C06"]["level_text"] = (
+    "Proof: one server connection is a labelled transition system (Conc/ConnProto.lean: StartTag / WaitTag / wake / backend enter+leave / "
+    "handler return+ClearTag / reply write, per request record, any tags incl. duplicates and re-use; a Tflush is handled without registering "
+    "its tag - the D19 fix); for every label sequence an invariant proved by induction gives: a request has exactly one reply frame once "
+    "answered and none before, every frame carries the tag of the accepted request it answers, nothing else is written; a non-flush request "
+    "whose tag is in flight is dropped, a Tflush never; a flush of an idle or answered tag or of a Tflush (its own tag included) does not wait; "
+    "progress (Conc/ConnProgress.lean): in every reachable state every accepted unanswered request can move, or is a Tflush waiting for a "
+    "non-flush request that can move - no cycles of waiters. Regenerated obligations over the lock scripts: every frame is written under "
+    "sendMu and read under recvMu, no backend call runs under a leaf mutex, a backend call under childMu happens only inside the global "
+    "rename lock. Partial: that a blocked request delays only contract-ordered ones is the guard-compatibility model of C07 checked against "
+    "the running server by the rendezvous harness.")
+PROPS["C06"]["rule"] += (" kmutual: pairs of Tflush naming each other's tags written in one segment (60 000 trials quick, 2 000 000 thorough); "
+    "k7tags bursts contain unknown-type frames, a third run on a single P through the chunking writer, Rgetattr bodies are compared with the "
+    "attributes of the file each request named.")
+PROPS["C08"]["level_text"] += (" Added: Trename/Trenameat/Tlink with the first fid fenced and the second bound refuse with EINVAL before the backend; "
+    "Renamed(file, new parent file, new name) is in the call log after the callback loop for every live moved reference and stays there "
+    "(Session/Calls.lean: the log only grows), references already being destroyed are skipped.")
+PROPS["C10"]["rule"] += (" kmuxfid: a Close whose Rclunk is withheld while another goroutine allocates a fid; kmux: half of the runs refuse a third of "
+    "the calls with an errno that identifies the request - each caller must see its own errno.")
+PROPS["C12"]["rule"] += " kmsz: two Tversion exchanges on one connection, the second Rversion must announce min(requested, 4 MiB) whatever came before."
+PROPS["C13"]["rule"] += (" k13 also renegotiates a smaller msize after reads and reads a long attribute through an xattr fid; k13big: requested msize above "
+    "4 MiB (lengths only); kxattr: GetXattr of values around and above one frame through a real client, every Tread count must fit a reply.")
+PROPS["C14"]["rule"] += (" Victim tags are adversarial (0xffff, 0xfffe, 0x8000, 0); a victim kind holds the Close of a replaced fid; the chained flush "
+    "(a Tflush naming a Tflush) is answered at once and is not counted as early; scenarios: an undecodable frame and a self-flush leave no tag behind.")
+PROPS["C15"]["level_text"] += (" Regenerated obligation panicSafeOk: no backend call runs while a lock is held whose release is not a defer placed right "
+    "after the acquisition - a recovered panic leaves no lock behind; scenarios inject panics in UnlinkAt and in Renamed (moved entry, descendant).")
+PROPS["C17"]["level_text"] = (
+    "Proof, both paths: reading n bytes through any segmentation into non-empty chunks, EOF attached to the last chunk or separate, yields the "
+    "stream's first n bytes (induction over the read loop); recv over a segmented reader has the same outcome and leaves the same unread bytes "
+    "as recv1 on the byte string; the whole outcome sequence of the receive loop is independent of the segmentation; EOF inside a frame is a "
+    "connection error. The vectorised recvmsg loop (Transport/Vec.lean: readVec/scatter) fills the vectors with the same consecutive pieces for "
+    "every segmentation (induction with scatter_append), and both paths deliver the same vectors (read_paths_agree).")
+PROPS["C17"]["level_note"] = (
+    "Trusted: Lean kernel; Transport/Seg.lean and Transport/Vec.lean transcribe Buffers.ReadFrom, io.ReadAtLeast and readFromBuffersLinux by hand; "
+    "tie = K3: the same bytes under all single splits, byte-by-byte, random segmentations, every truncation point with EOF attached, through a "
+    "chunking io.Reader and through a unix socketpair (recvmsg path).")
+PROPS["C18"]["level_text"] += (" Further regenerated facts: the pooled encode buffer of send is released only after the frame is written, the pooled "
+    "receive buffers only when recv returns, tread.handle never returns a read buffer itself.")
+PROPS["C05"]["rule"] = PROPS["C05"].get("rule", "") + (" Concurrent runs: k7storm (lifecycle under shared-path storms) and k7scen (clunk racing an in-flight read, "
+    "connection cut with a request in the backend, rename while a child is closing, panic in a Renamed callback).")
